@@ -77,6 +77,9 @@ func CleanDomain(addr string) (string, error) {
 		return addr, err
 	}
 
+	// A-labels are case-insensitive but idna.ToUnicode recognizes the ACE
+	// prefix only in lower case, decode "XN--..." spellings too.
+	domain = dns.LowerASCII(domain)
 	uDomain, err := idna.ToUnicode(domain)
 	if err != nil {
 		return addr, err
